@@ -62,6 +62,8 @@ From FV.C11 Require Import Model Entry Check.
 From FV.C11.gen Require Import Kernels.
 Open Scope string_scope. Open Scope Q_scope.
 Set Printing Width 100000.
+Definition raise_ok (m : option (list (Z * Q))) : bool :=
+  match m with None => true | Some l => existsb (fun r => Qeq_bool (snd r) 0) l end.
 '''
 
 
@@ -202,6 +204,20 @@ def gen_meshes(ctx):
         meshes.append(G.hexprism_mesh(rng, G.random_opts(rng, jitter_ok=False)))
         for ks in (['hex'], ['prism'], ['pyr'], ['hex', 'prism', 'pyr']):
             meshes.append(G.frustum_mesh(rng, ks, G.random_opts(rng, jitter_ok=False)))
+    # dense, almost sorted id patterns (ends in place + interior shuffled, adjacent
+    # swap, reversed, one id moved) for nodes and for elements
+    for pat in G.PATTERN_MODES:
+        for which in ('node_ids', 'elem_ids', 'both'):
+            o = G.random_opts(rng)
+            o['extra_nodes'] = 0
+            if which in ('node_ids', 'both'):
+                o['node_ids'] = pat
+            if which in ('elem_ids', 'both'):
+                o['elem_ids'] = pat
+            ks = rng.choice([['hex'], ['tet'], ['prism'], ['hex', 'tet']])
+            meshes.append(G.solid_mesh(rng, ks, o))
+            o = dict(o, ragged=False)
+            meshes.append(G.shell_mesh(rng, rng.choice([['tri'], ['quad'], ['tri', 'quad']]), o))
     # mixed meshes whose blocks are stored in id order AND ones that are not
     for rep in range(2 * n):
         for sh in (False, True):
@@ -305,6 +321,12 @@ def correspondence(ctx, meshes, tasks, res):
                 bad_corr.append(t['id'])
                 continue
             cl = f'(close3 {qf(eabs)} {qf(erel)})' if vec else f'(close {qf(eabs)} {qf(erel)})'
+            if r.get('error') == 'ValueError' and t['raise'] and not vec:
+                # `metric < 0.` on a float: an exactly degenerate element (model value 0) may
+                # come out as -1e-17 and raise; accept a raise when the model has an exact 0
+                items_c.append(f'({t["id"]}%nat, raise_ok ({entry_call(t, "impl", str(mi))}))')
+                items_p.append(f'({t["id"]}%nat, raise_ok ({entry_call(t, "spec", str(mi))}))')
+                continue
             items_c.append(f'({t["id"]}%nat, agree {cl} ({entry_call(t, "impl", str(mi))}) {impl})')
             items_p.append(f'({t["id"]}%nat, agree {cl} ({entry_call(t, "spec", str(mi))}) {impl})')
         lines.append('Definition cases_c : list (nat * bool) := [' + ';\n'.join(items_c) + '].')
@@ -462,6 +484,138 @@ def oracle_brick(ctx, model_ok=True):
     return len(tasks), n_bad
 
 
+# ------------------------------------------ 4. same object: query, move, query
+import math  # noqa
+
+
+def mesh_defs_q(name, node_ids, coords, blocks):
+    nodes = lib.coq_list([f'({zlit(i)}, {v3flit(c)})' for i, c in zip(node_ids, coords)])
+    bl = []
+    for ty, eids, conn in blocks:
+        rows = lib.coq_list([f'({zlit(e)}, {lib.coq_list([zlit(x) for x in c])})'
+                             for e, c in zip(eids, conn)])
+        bl.append(f'({lib.coq_str(ty)}, {rows})')
+    return (f'Definition nodes_{name} : node_table Q := {nodes}.\n'
+            f'Definition blocks_{name} : list block := {lib.coq_list(bl)}.\n')
+
+
+MOTIONS = [
+    [{'kind': 'translation', 'v': [3.0, -2.0, 5.0]}],
+    [{'kind': 'rotation', 'axis': [0.0, 0.0, 1.0], 'theta': math.pi / 2}],
+    [{'kind': 'rotation', 'axis': [1.0, 0.0, 0.0], 'theta': math.pi / 2}],
+    [{'kind': 'rotation', 'axis': [1.0, 1.0, 1.0], 'theta': 2 * math.pi / 3}],
+    [{'kind': 'rotation', 'axis': [0.0, 1.0, 0.0], 'theta': math.pi},
+     {'kind': 'translation', 'v': [-1.0, 4.0, 2.0]}],
+]
+
+
+def motion_stream(ctx, model_ok):
+    """compute metrics/normals, move the mesh IN PLACE through translation()/rotation(),
+    query the same object again: the answers must be those of the moved coordinates
+    (refusing the motion with NotImplementedError is fine)"""
+    rng = ctx.rng
+    n = 2 if ctx.tier == 'quick' else 8
+    meshes, tasks = [], []
+    for rep in range(n):
+        for dim, ks in ((2, ['tri']), (2, ['quad']), (2, ['tri', 'quad']), (3, ['tet']), (3, ['hex'])):
+            o = G.random_opts(rng, jitter_ok=False)
+            o['matrix'] = rng.choice([m for m in G.MATRICES if m[0] in ('identity', 'shear', 'general', 'rotscale3')])
+            meshes.append(G.shell_mesh(rng, ks, dict(o, ragged=False)) if dim == 2
+                          else G.solid_mesh(rng, ks, o, dims=(2, 1, 1)))
+    for mi, mesh in enumerate(meshes):
+        m = {k: mesh[k] for k in ('node_ids', 'coords', 'blocks')}
+        entries = [('normals', 'centroid'), ('normals', 'linear'), ('areas', 'linear'), ('metrics', None)] \
+            if mesh['meta']['dim'] == 2 else [('volumes', 'linear'), ('volumes', 'centroid'), ('metrics', None)]
+        for entry, mode in entries:
+            for pop_node in (False, True):
+                for order in ('qmq', 'mq'):
+                    tasks.append({'id': len(tasks), 'kind': 'motion', 'mesh': m, 'mi': mi, 'entry': entry,
+                                  'mode': mode, 'pop_node': pop_node, 'order': order,
+                                  'motions': rng.choice(MOTIONS)})
+    res = run_impl(ctx, tasks, 'motion')
+    defs, items, index = [], [], {}
+    n_bad = 0
+    for t in tasks:
+        r = res[t['id']]
+        mesh = meshes[t['mi']]
+        outcome = 'crash' if 'crash' in r else 'refused' if r.get('refused') else 'moved'
+        ctx.count(f'motion:{outcome}:{"NODE popped" if t["pop_node"] else "as built"}:{t["order"]}')
+        ctx.case(['motion', t['entry'], t['mode'], t['pop_node'], t['order'], t['motions'],
+                  mesh['node_ids'], mesh['coords'], mesh['blocks']],
+                 sample={'stream': 'same object: query, move in place, query', 'entry': t['entry'],
+                         'motions': t['motions'], 'outcome': outcome})
+        if outcome == 'crash':
+            n_bad += 1
+            ctx.violation('impl-violation', {'stream': 'motion', **{k: t[k] for k in
+                          ('entry', 'mode', 'pop_node', 'order', 'motions', 'mesh')}},
+                          'motion is performed or refused with NotImplementedError', r,
+                          'same-object motion stream', found_input=True,
+                          signature={'kind': 'motion-crash', 'entry': t['entry']})
+            continue
+        if outcome == 'refused':
+            continue
+        sec = r['second']
+        coords = [[hexq(x) for x in row] for row in r['coords_after']]
+        name = f'm{t["id"]}'
+        defs.append(mesh_defs_q(name, r['node_ids_after'], coords, mesh['blocks']))
+        vec = t['entry'] == 'normals'
+        if vec:
+            eabs, erel = Fraction(1, 2 ** 30), Fraction(0)
+        else:
+            eabs, erel = Fraction(1, 2 ** 14), Fraction(1, 2 ** 16)
+        cl = f'(close3 {qf(eabs)} {qf(erel)})' if vec else f'(close {qf(eabs)} {qf(erel)})'
+
+        def lit(values, ids):
+            if vec:
+                return '(Some ' + lib.coq_list([f'({zlit(i)}, {v3flit([hexq(x) for x in v])})'
+                                                for i, v in zip(ids, values)]) + ')'
+            return '(Some ' + lib.coq_list([f'({zlit(i)}, {qf(hexq(v))})' for i, v in zip(ids, values)]) + ')'
+        tt = dict(t, **{'raise': False, 'abs': t['entry'] == 'areas'})
+        call = entry_call(tt, 'spec', name)
+        if 'values' not in sec:
+            items.append((2 * t['id'], f'agree {cl} ({call}) None'))
+        else:
+            items.append((2 * t['id'], f'agree {cl} ({call}) {lit(sec["values"], sec["ids"])}'))
+            if 'stored_after_second' in r:
+                items.append((2 * t['id'] + 1,
+                              f'agree {cl} ({call}) {lit(r["stored_after_second"], sec["ids"])}'))
+    bad = []
+    if model_ok and items:
+        text = HEADER + '\n'.join(defs) + '\nDefinition cases : list (nat * bool) := [' + \
+            ';\n'.join(f'({i}%nat, {e})' for i, e in items) + '].\n' \
+            'Goal True. idtac "@@ failing". Abort.\n' \
+            'Eval vm_compute in map fst (filter (fun c => negb (snd c)) cases).\n'
+        rc, out, err = ctx.coq_eval('MotionCases', text, timeout=900)
+        bad = failing(out, 'failing') if rc == 0 else None
+        if bad is None:
+            ctx.log('MotionCases.v failed to compile:', err[-600:])
+            ctx.violation('tie-broken', {'stage': 'MotionCases.v'}, 'case file compiles', err[-300:],
+                          'same-object motion stream', found_input=False,
+                          signature={'kind': 'case-file', 'file': 'MotionCases'})
+            bad = []
+            n_bad += 1
+    byid = {t['id']: t for t in tasks}
+    for j in bad:
+        t = byid[j // 2]
+        r = res[t['id']]
+        n_bad += 1
+        what = 'stored attribute' if j % 2 else 'returned value'
+        ctx.violation('impl-violation',
+                      {'stream': 'motion', **{k: t[k] for k in ('entry', 'mode', 'pop_node', 'order', 'motions', 'mesh')}},
+                      'after an accepted in-place motion the same object answers for the MOVED coordinates '
+                      '(model evaluated on the coordinates the object now holds)',
+                      {'first': r.get('first'), 'second': r.get('second'),
+                       'stored_after_second': r.get('stored_after_second'),
+                       'derived_keys_before_motion': r.get('derived_keys_before_motion')},
+                      'C11_normal_rotation_* / C11_vol_affine_* / C11_area_similarity_* on the same object',
+                      found_input=True,
+                      signature={'kind': 'same-object-motion', 'entry': t['entry'], 'what': what,
+                                 'order': t['order'], 'motion': t['motions'][0]['kind']},
+                      what=f'{t["entry"]}: {what} after {t["motions"][0]["kind"]}() is not that of the moved mesh')
+    ctx.notes['motion_stream'] = {'cases': len(tasks), 'compared': len(items), 'failures': n_bad}
+    return len(tasks), n_bad
+
+
 # ---------------------------------------------------------------------- main
 def main(ctx):
     ctx.rule = ('translator validation: every generated kernel on random integer elements '
@@ -591,9 +745,10 @@ def main(ctx):
     # 5. oracles on the implementation
     n_aff_bad = oracle_affine(ctx, meshes, tasks, res)
     n_brick, n_brick_bad = oracle_brick(ctx, model_ok)
-    ctx.notes['search_evaluations'] = len(tasks) + n_brick
+    n_motion, n_motion_bad = motion_stream(ctx, model_ok)
+    ctx.notes['search_evaluations'] = len(tasks) + n_brick + n_motion
     ctx.notes['impl_property_failures'] = {'assembly': n_prop_bad, 'closed_form': n_aff_bad,
-                                           'brick': n_brick_bad}
+                                           'brick': n_brick_bad, 'same_object_motion': n_motion_bad}
     # 6. broken tie / proof without a failing input
     found_any = len(ctx.violations) > n_viol_before or ctx.known
     if not tie_ok and not found_any:
